@@ -457,9 +457,10 @@ func VerifC09_ReadFrom() {
 }
 
 type c09Writer struct {
-	got   []byte
-	total int
-	calls int
+	got     []byte
+	total   int
+	calls   int
+	okTotal int // bytes accepted by calls that reported no error
 }
 
 func (w *c09Writer) Write(p []byte) (int, error) {
@@ -469,11 +470,18 @@ func (w *c09Writer) Write(p []byte) (int, error) {
 	w.got = append(w.got, p[:n]...)
 	w.total += n
 	if n < len(p) {
+		// a sonic Stream (non-blocking descriptor) may accept a part without reporting an error; at most
+		// two such partial successes so that the caller's loop terminates within the bound
+		if n >= 1 && w.calls <= 2 && vf.Bool("wr.partial-ok") {
+			w.okTotal += n
+			return n, nil
+		}
 		return n, io.ErrShortWrite
 	}
 	if vf.Bool("wr.err") {
 		return n, io.ErrClosedPipe
 	}
+	w.okTotal += n
 	return n, nil
 }
 
@@ -481,7 +489,18 @@ func (w *c09Writer) AsyncWrite(p []byte, cb AsyncCallback) {
 	n, err := w.Write(p)
 	cb(err, n)
 }
-func (w *c09Writer) AsyncWriteAll(p []byte, cb AsyncCallback) { w.AsyncWrite(p, cb) }
+func (w *c09Writer) AsyncWriteAll(p []byte, cb AsyncCallback) {
+	sent := 0
+	for sent < len(p) {
+		n, err := w.Write(p[sent:])
+		sent += n
+		if err != nil {
+			cb(err, sent)
+			return
+		}
+	}
+	cb(nil, sent)
+}
 func (w *c09Writer) CancelWrites()                           {}
 
 func VerifC09_WriteTo() {
@@ -491,7 +510,8 @@ func VerifC09_WriteTo() {
 	w := &c09Writer{}
 	var n int
 	var err error
-	if vf.Bool("async") {
+	async := vf.Bool("async")
+	if async {
 		calls := 0
 		b.AsyncWriteTo(w, func(e error, m int) { calls++; n, err = m, e })
 		vf.Assert("asyncwriteto-once", calls == 1)
@@ -515,6 +535,15 @@ func VerifC09_WriteTo() {
 		vf.Reach("err")
 		// on error nothing the writer did not accept may be dropped
 		vf.Assert("writeto-err-keeps-unsent", vf.All(b.si == si, ri-b.ri <= w.total, b.wi-b.ri == wi-ri))
+		if !async {
+			// what the writer accepted in calls that succeeded has left the buffer (a retry after
+			// would-block must not hand the same bytes over twice); the asynchronous variant documents
+			// "consumed only if no error occurred" and is used on streams that are dead after an error
+			vf.Assert("writeto-err-consumes-what-was-accepted", b.ri-b.si == (ri-si)-w.okTotal)
+			if w.okTotal > 0 {
+				vf.Reach("err-after-partial-success")
+			}
+		}
 	}
 	j := vf.Int("j")
 	vf.Assume(vf.All(0 <= j, j < si))
